@@ -114,12 +114,49 @@ def make_result(kind, who):
     return Result(who)
 
 
+async def _slow_close(close, interrupted):
+    """an operation that never completes and needs `close` seconds to clean
+    up when it is interrupted"""
+    try:
+        await asyncio.get_running_loop().create_future()
+    except asyncio.CancelledError:
+        interrupted()
+        raise
+    finally:
+        await asyncio.sleep(close)
+
+
 async def body(trace, spec, who):
     trace.log('enter', who)
+    noted = []
+
+    def interrupted():
+        # the inner operation was interrupted: by the job's own timeout, or by
+        # a cancel request from outside (VTask.cancel keeps count of those) -
+        # the latter is the moment the cancellation reached this body
+        if getattr(asyncio.current_task(), '_vext', 0) and not noted:
+            noted.append(True)
+            trace.log('cancel', who)
     try:
         for _ in range(spec.get('pre', 0)):
             await asyncio.sleep(0)
         dur = spec.get('dur', 0)
+        itmo = spec.get('itmo')
+        if itmo:
+            # the job guards an inner operation with a timeout OF ITS OWN
+            # (asyncio.timeout() cancels the job's task from inside), absorbs
+            # that TimeoutError and carries on; a never-ending job polls so
+            # for ever.  While the interrupted operation cleans up the task has
+            # a cancellation request of its own pending: a cancel() sent by the
+            # scheduler in that lapse must still get through.
+            rounds = 0
+            while dur is None or rounds < itmo.get('rounds', 1):
+                rounds += 1
+                try:
+                    async with asyncio.timeout(itmo['after']):
+                        await _slow_close(itmo['close'], interrupted)
+                except TimeoutError:
+                    pass
         if dur is None:
             ticker = spec.get('ticker')
             if ticker:
@@ -132,17 +169,18 @@ async def body(trace, spec, who):
         for _ in range(spec.get('post', 0)):
             await asyncio.sleep(0)
     except asyncio.CancelledError:
-        trace.log('cancel', who)
-        interrupted = True
+        if not noted:
+            trace.log('cancel', who)
+        cut_short = True
         try:
             cdur = spec.get('cdur', 0)
             if cdur:
                 await asyncio.sleep(cdur)
             for _ in range(spec.get('cyields', 0)):
                 await asyncio.sleep(0)
-            interrupted = False
+            cut_short = False
         finally:
-            trace.log('cancel_done', who, interrupted=interrupted)
+            trace.log('cancel_done', who, interrupted=cut_short)
         raise
     if spec.get('outcome') == 'raise':
         exc = make_exception(spec.get('exc'), who)
